@@ -244,7 +244,8 @@ pub fn swarm(prop: &str, seed: u64) -> (GenCfg, Suffix, Shape) {
             c.pacings = pacing_family(&mut r, true);
             c.pacings.truncate(1);
             c.w_event[EW_PACING] = 0;
-            c.w_event[EW_ADJUST] = 0;
+            // artificial debt: positive only (the property excludes reductions), in a third of the runs
+            c.w_event[EW_ADJUST] = if r.chance(1, 3) { 1 } else { 0 };
             c.w_op[OW_BURST] = 6;
             c.burst_max = 64;
             c.w_call = [4, 1, 0, 6, 2];
